@@ -40,6 +40,9 @@ func (sc *SyncClock) LocalTime() time.Time {
 
 // Decode .
 func (sc *SyncClock) Decode(data []byte) (ok bool) {
+	if len(data) < 20 { // header(4)+SSRC(4)+NTP(8)+RTP timestamp(4)
+		return false
+	}
 	if data[1] == 200 {
 		msw := binary.BigEndian.Uint32(data[8:])
 		lsw := binary.BigEndian.Uint32(data[12:])
